@@ -49,6 +49,8 @@ pub struct Feat {
     /// cases per variant type (upper bound)
     pub max_cases: usize,
     pub neg: bool,
+    /// `list[param]`: a parameter in index position
+    pub param_index: bool,
 }
 
 impl Feat {
@@ -89,6 +91,7 @@ impl Feat {
             multi_utxo: true,
             max_cases: 5,
             neg: true,
+            param_index: false,
         }
     }
 }
@@ -622,6 +625,17 @@ impl<'t, 'c> Gen<'t, 'c> {
                     items[0] = GExpr::Int(self.t.pick(1000) as i64);
                 }
                 let ix = self.t.pick(n) as i64;
+                // a parameter whose (comfortable) value is a valid index
+                let by_param: Vec<usize> = self
+                    .params_of(&Ty::Int)
+                    .into_iter()
+                    .filter(|p| matches!(self.arg_vals.get(*p), Some(Val::Int(v)) if *v >= BigInt::from(0) && *v < BigInt::from(n)))
+                    .collect();
+                if self.feat.param_index && !by_param.is_empty() && self.t.flag() {
+                    self.mark("parameter_in_index_position");
+                    let p = by_param[self.t.pick(by_param.len())];
+                    return GExpr::Index(Box::new(GExpr::List(items)), Box::new(GExpr::Param(p)));
+                }
                 GExpr::Index(Box::new(GExpr::List(items)), Box::new(GExpr::Int(ix)))
             }
         }
